@@ -123,7 +123,7 @@ def b_kernels(tier):
 def b_fft(tier, seed):
     import numpy as np
     from pymbolic.algorithm import fft, ifft, sym_fft
-    b = BoundedRun("fft", rule="fft(x) for every length 1..64 (thorough; quick 1..33) and seeded random longer ones vs the O(n^2) DFT definition "
+    b = BoundedRun("fft", rule="fft(x) for complex, real (float64) and integer input vectors of every length 1..64 (thorough; quick 1..33) and seeded random longer ones vs the O(n^2) DFT definition "
                    "F_k = sum_j z^{kj} x_j, z = exp(-2 i pi sign/n), both signs, with a relative tolerance 1e-9; ifft(fft(x)) = x; sym_fft evaluated at the same "
                    "data equals fft, both signs (n <= 12); non-trivial = every length (prime, composite, power of two)",
                    bound="n <= 64 (+ 3 random n <= 200)", functions=["fft", "ifft", "sym_fft", "find_factors"])
@@ -132,19 +132,22 @@ def b_fft(tier, seed):
     with warnings.catch_warnings():
         warnings.simplefilter("ignore")
         for n in lens:
-            x = rng.normal(size=n) + 1j * rng.normal(size=n)
-            for sign in (1, -1):
-                z = np.exp(-2j * np.pi * sign / n)
-                ref = np.array([sum(z ** (k * j) * x[j] for j in range(n)) for k in range(n)])
-                r = outcome.run(lambda: fft(x.copy(), sign=sign, complex_dtype=np.complex128))
-                b.case(("fft", n, sign), sample=dict(n=n, sign=sign))
-                ok = r[0] == "val" and np.linalg.norm(np.asarray(r[1]) - ref) <= 1e-9 * max(1.0, np.linalg.norm(ref))
-                if not ok:
-                    b.fail(Failure("fft", f"what=fft n={n} sign={sign}", dict(kind="fft", n=n, sign=sign), expected="DFT", actual=outcome.describe(r)[:200], functions=["fft"]))
-            r2 = outcome.run(lambda: ifft(fft(x.copy(), complex_dtype=np.complex128), complex_dtype=np.complex128))
-            b.case(("ifft", n))
-            if not (r2[0] == "val" and np.linalg.norm(np.asarray(r2[1]) - x) <= 1e-9 * max(1.0, np.linalg.norm(x))):
-                b.fail(Failure("fft", f"what=ifft n={n}", dict(kind="ifft", n=n), expected="x", actual=outcome.describe(r2)[:200], functions=["ifft"]))
+            for kind in ("complex", "float", "int"):
+              x = (rng.normal(size=n) + 1j * rng.normal(size=n)) if kind == "complex" else (rng.normal(size=n) if kind == "float" else rng.integers(-9, 10, size=n))
+              if kind != "complex" and n > 40 and n % 3:
+                  continue
+              for sign in (1, -1):
+                  z = np.exp(-2j * np.pi * sign / n)
+                  ref = np.array([sum(z ** (k * j) * x[j] for j in range(n)) for k in range(n)])
+                  r = outcome.run(lambda: fft(x.copy(), sign=sign, complex_dtype=np.complex128))
+                  b.case(("fft", n, sign, kind), sample=dict(n=n, sign=sign, input=kind))
+                  ok = r[0] == "val" and np.linalg.norm(np.asarray(r[1]) - ref) <= 1e-9 * max(1.0, np.linalg.norm(ref))
+                  if not ok:
+                      b.fail(Failure("fft", f"what=fft n={n} sign={sign} input={kind}", dict(kind="fft", n=n, sign=sign, input=kind), expected="DFT", actual=outcome.describe(r)[:200], functions=["fft"]))
+              r2 = outcome.run(lambda: ifft(fft(x.copy(), complex_dtype=np.complex128), complex_dtype=np.complex128))
+              b.case(("ifft", n, kind))
+              if not (r2[0] == "val" and np.linalg.norm(np.asarray(r2[1]) - x) <= 1e-9 * max(1.0, np.linalg.norm(x))):
+                  b.fail(Failure("fft", f"what=ifft n={n} input={kind}", dict(kind="ifft", n=n, input=kind), expected="x", actual=outcome.describe(r2)[:200], functions=["ifft"]))
         from pymbolic import evaluate
         import pymbolic.primitives as p
         for n in range(1, 13):
